@@ -2,7 +2,7 @@
 import os, re
 from .mirparse import parse_mir, split_top, match_close
 
-SHIMS = ("vstd", "futures", "atomic_float", "bincode", "bytes", "tokio", "aws_sdk_s3", "aws_config")
+SHIMS = ("vstd", "futures", "atomic_float", "bincode", "bytes", "tokio", "aws_sdk_s3", "aws_config", "tiny_http")
 
 class Program:
     def __init__(self, built, verif_dir):
